@@ -460,6 +460,14 @@ class LinkSameWithUnits(LinkTwoWay):
     def backwards(self, values):
         return self._converter.to_unit(self._cid2.parent, self._cid2, values, self.units1)
 
+    def __gluestate__(self, context):
+        # forwards/backwards are bound methods of this object and are re-created by __init__
+        return dict(cid1=context.id(self._cid1), cid2=context.id(self._cid2))
+
+    @classmethod
+    def __setgluestate__(cls, rec, context):
+        return cls(context.object(rec['cid1']), context.object(rec['cid2']))
+
 
 class LinkAligned(LinkCollection):
     """
